@@ -41,6 +41,20 @@ fn cmp_same(za: &Z, zb: &Z) -> Option<Ordering> {
     z_match!(za, a => go(a, zb))
 }
 
+/// The provided methods of `Ord` (an implementation may override them): max, min, clamp on two
+/// vectors of the same zoo type; returns which operand each call returned (by bits and length).
+fn ord_provided(za: &Z, zb: &Z) -> Option<(Bits, Bits, Bits)> {
+    fn go<T: Subject + Ord>(a: &T, zb: &Z) -> Option<(Bits, Bits, Bits)> {
+        let b = T::from_z(zb.clone())?;
+        let mx = a.clone().max(b.clone());
+        let mn = a.clone().min(b.clone());
+        let (lo, hi) = if a <= &b { (a.clone(), b.clone()) } else { (b.clone(), a.clone()) };
+        let cl = a.clone().clamp(lo, hi);
+        Some((read_bits(&mx), read_bits(&mn), read_bits(&cl)))
+    }
+    z_match!(za, a => go(a, zb))
+}
+
 fn model_cmp(a: &Bits, b: &Bits) -> Ordering {
     // numeric comparison with zero extension, done on the lists (no bignum needed)
     let n = a.len().max(b.len());
@@ -60,7 +74,7 @@ impl Property for C09 {
         "C09"
     }
     fn rule(&self) -> String {
-        "Cases: ordered pairs (a,b) of operands of any two zoo types/lengths/provenances, with b related to a (independent, equal value at another length, a+-1, 2^m-a, exactly one bit flipped), and lists of same-type vectors to be sorted. Checked: ==,!=,<,<=,>,>=,partial_cmp in BOTH operand orders for the type pairing, Ord::cmp for same-type pairs, reflexivity of each operand, mutual consistency; sort() output non-decreasing by value and a permutation of the input. Enumerated: all (n,a,m,b) n,m<=4 (quick)/<=7 (thorough) x 20x20 pairings; long vectors: every length 321..2600 (thorough 8300), 1023..4097 bits on ten pairings, the 70 400-bit fixed type in seven pairings at 7 lengths, and a geometric ladder of lengths around every power of two from 2^14 to 2^21 (thorough 2^24) bits on Bvd/Bv (equal, one bit different at the bottom/middle/top, shorter operands). Oracle: numeric comparison of the zero-extended bit lists. Non-trivial: lengths differ, or values unequal but identical in their most significant non-zero storage word of the wider word type (decision falls to a lower word); equal values of different length are a counted class. Distinct by hash of the case.".into()
+        "Cases: ordered pairs (a,b) of operands of any two zoo types/lengths/provenances, with b related to a (independent, equal value at another length, a+-1, 2^m-a, exactly one bit flipped), and lists of same-type vectors to be sorted. Checked: ==,!=,<,<=,>,>=,partial_cmp in BOTH operand orders for the type pairing, Ord::cmp, max, min and clamp for same-type pairs, reflexivity of each operand, mutual consistency; sort() output non-decreasing by value and a permutation of the input. Enumerated: all (n,a,m,b) n,m<=4 (quick)/<=7 (thorough) x 20x20 pairings; long vectors: every length 321..2600 (thorough 8300), 1023..4097 bits on ten pairings, the 70 400-bit fixed type in seven pairings at 7 lengths, and a geometric ladder of lengths around every power of two from 2^14 to 2^21 (thorough 2^24) bits on Bvd/Bv (equal, one bit different at the bottom/middle/top, shorter operands). Oracle: numeric comparison of the zero-extended bit lists. Non-trivial: lengths differ, or values unequal but identical in their most significant non-zero storage word of the wider word type (decision falls to a lower word); equal values of different length are a counted class. Distinct by hash of the case.".into()
     }
     fn random_cases(&self, tier: Tier) -> u64 {
         tier.pick(300000, 9600000)
@@ -295,6 +309,22 @@ impl Property for C09 {
                     ensure!(c == Some(o), format!("{}/ord-cmp", what), "{}.cmp({}) = {:?}, numeric order {:?}", a.describe(), b.describe(), c, o);
                     let c2 = cmp_same(&zb, &za);
                     ensure!(c2 == Some(o.reverse()), format!("{}/ord-cmp", what), "{}.cmp({}) = {:?}, numeric order {:?}", b.describe(), a.describe(), c2, o.reverse());
+                    // max / min / clamp, compared numerically (which of two equal-valued operands of
+                    // different length is returned is not part of the property)
+                    match catch(|| ord_provided(&za, &zb)) {
+                        Ok(Some((mx, mn, cl))) => {
+                            let (emx, emn) = match o {
+                                Ordering::Greater => (&a.bits, &b.bits),
+                                Ordering::Less => (&b.bits, &a.bits),
+                                Ordering::Equal => (&b.bits, &a.bits),
+                            };
+                            ensure!(model_cmp(&mx, emx) == Ordering::Equal, format!("{}/ord-max", what), "max({}, {}) returned {}", a.describe(), b.describe(), short(&mx));
+                            ensure!(model_cmp(&mn, emn) == Ordering::Equal, format!("{}/ord-min", what), "min({}, {}) returned {}", a.describe(), b.describe(), short(&mn));
+                            ensure!(model_cmp(&cl, &a.bits) == Ordering::Equal, format!("{}/ord-clamp", what), "{}.clamp(min, max) of the pair with {} returned {}", a.describe(), b.describe(), short(&cl));
+                        }
+                        Ok(None) => {}
+                        Err(p) => fail!(format!("{}/ord-provided-panic", what), "max/min/clamp of {} and {} panicked: {}", a.describe(), b.describe(), p),
+                    }
                 }
                 let wide = WORD_BITS[a.ty as usize].max(WORD_BITS[b.ty as usize]);
                 let sa = a.bits.significant();
